@@ -85,6 +85,7 @@ def run_step(context):
         logger.debug("json file loaded. Merging into pypyr context. . .")
         context.update(payload)
 
+    # a scalar top-level (number, bool, null) saved to a key has no len()
     logger.info("json file written into pypyr context. Count: %s",
-                len(payload))
+                len(payload) if hasattr(payload, '__len__') else 1)
     logger.debug("done")
